@@ -38,7 +38,8 @@ type sys struct {
 	// ownership watch (concurrent phase): task -> environment it was last seen locked by, and the
 	// environments some caller has asked to destroy
 	owned      map[string]string
-	slow       bool // concurrent phase: launches take a virtual second to report TASK_RUNNING
+	others     map[string]string // sequential phase: snapshots of the environments the current operation is not about
+	slow       bool              // concurrent phase: launches take a virtual second to report TASK_RUNNING
 	destroying map[string]bool
 }
 
@@ -93,9 +94,7 @@ func newSys() *sys {
 		if s.w == nil || s.w.Core == nil {
 			return
 		}
-		if s.curOp == "concurrent-phase" {
-			s.watchOwned()
-		}
+		s.watchOwned()
 		switch c.Type {
 		case "KILL":
 			owner := s.w.TaskOwners()[c.Task]
@@ -178,7 +177,35 @@ func (s *sys) snapshot(id string) string {
 
 // apply executes one operation; returns false if it is not applicable in the current state.
 func (s *sys) apply(op string) bool {
+	if !s.apply1(op) {
+		return false
+	}
+	s.watchOwned()
+	// no operation changes an environment it is not about
+	for slot, before := range s.others {
+		if after := s.snapshot(s.ids[slot]); after != before {
+			s.fail("operation-changed-another-environment:"+opKind(op), "environment %s (not the subject of %s): before %s | after %s", slot, op, before, after)
+		}
+	}
+	s.invariants()
+	return true
+}
+
+// snapshotOthers records every live environment except the one in slot `except`.
+func (s *sys) snapshotOthers(except string) {
+	s.others = map[string]string{}
+	envs := s.w.Envs()
+	for slot, id := range s.ids {
+		if _, ok := envs[id]; ok && slot != except {
+			s.others[slot] = s.snapshot(id)
+		}
+	}
+}
+
+func (s *sys) apply1(op string) bool {
 	s.curOp, s.curEnv = op, ""
+	s.others = nil
+	s.watchOwned()
 	envs := s.w.Envs()
 	live := func(slot string) (string, string, bool) {
 		id, ok := s.ids[slot]
@@ -210,6 +237,7 @@ func (s *sys) apply(op string) bool {
 		if holder != "" {
 			before = s.snapshot(holder)
 		}
+		s.snapshotOthers(slot)
 		id, _, err := s.w.Create(wfOf[slot], nil)
 		vrt.Quiesce("op")
 		if err == nil {
@@ -240,6 +268,7 @@ func (s *sys) apply(op string) bool {
 			return false
 		}
 		s.curEnv = id
+		s.snapshotOthers(slot)
 		s.w.Control(id, t)
 		vrt.Quiesce("op")
 	case strings.HasPrefix(op, "destroy"):
@@ -249,9 +278,15 @@ func (s *sys) apply(op string) bool {
 			return false
 		}
 		s.curEnv = id
+		s.snapshotOthers(slot)
+		if s.destroying == nil {
+			s.destroying = map[string]bool{}
+		}
+		s.destroying[id] = true
 		s.w.Destroy(id, strings.Contains(op, "Force"), true, strings.Contains(op, "Keep"))
 		vrt.Quiesce("op")
 	case op == "cleanupAll":
+		s.snapshotOthers("")
 		s.w.Cleanup(nil)
 		vrt.Quiesce("op")
 	case strings.HasPrefix(op, "cleanupIds"):
@@ -265,6 +300,7 @@ func (s *sys) apply(op string) bool {
 			return false
 		}
 		before := s.snapshot(id)
+		s.snapshotOthers("")
 		s.w.Cleanup(ts)
 		vrt.Quiesce("op")
 		if after := s.snapshot(id); after != before {
@@ -273,7 +309,6 @@ func (s *sys) apply(op string) bool {
 	default:
 		panic("unknown op " + op)
 	}
-	s.invariants()
 	return true
 }
 
